@@ -38,7 +38,7 @@ mod verif_kani_presolver {
         let mut i = 0;
         while i < N { total += cones[i].nvars(); i += 1; }
         // symbolic markers of exactly the matching total length (allocation size concrete, length cut back)
-        let marks: [bool; 9] = kani::any();
+        let marks: [bool; 9] = [kani::any(), kani::any(), kani::any(), kani::any(), kani::any(), kani::any(), kani::any(), kani::any(), kani::any()];
         let mut keep_logical = marks.to_vec();
         keep_logical.truncate(total);
         let presolver = Presolver::<f64> {
@@ -115,4 +115,7 @@ mod verif_kani_presolver {
     #[kani::proof]
     #[kani::unwind(11)]
     fn reduce_cones_matches_spec_len3_zero_exp_any() { check_on([cone_of(1), cone_of(3), any_cone()]); }
+    #[kani::proof]
+    #[kani::unwind(4)]
+    fn reduce_cones_dev3() { check_on([any_cone(), any_cone(), any_cone()]); }
 }
